@@ -1,3 +1,4 @@
+import datetime
 import openpyxl
 
 from . import patch, xltypes
@@ -42,6 +43,16 @@ class Reader():
                 else:
                     formula = None
                     value = cell.value
+
+                # Cells formatted as a time of day or as a duration come as
+                # datetime.time / timedelta, which no function can compute
+                # with: hand on the number of days the file stores.
+                if isinstance(value, datetime.timedelta):
+                    value = value.total_seconds() / 86400
+                elif isinstance(value, datetime.time):
+                    value = (value.hour * 3600 + value.minute * 60
+                             + value.second
+                             + value.microsecond / 1000000) / 86400
 
                 cells[addr] = xltypes.XLCell(
                     addr, value=value, formula=formula)
